@@ -1,6 +1,7 @@
 package main
 
 import (
+	"os/exec"
 	"golang.org/x/tools/go/ssa"
 	"encoding/json"
 	"flag"
@@ -508,6 +509,10 @@ func checkProperty(dir string, P *Program, C *Contracts, id, tier string, verbos
 		},
 		"assumptions": append(append([]string{}, assumed...), spec.Undecided...),
 	}
+	if tier == "thorough" {
+		// bounded validation of assumed specs by execution (evidence only, never counted as proof)
+		ev["coverage"].(map[string]any)["assumed_spec_validation"] = runSpecValidation(dir)
+	}
 	evDir := filepath.Join(dir, "evidence")
 	if os.Getenv("VERIF_NOEVIDENCE") != "" {
 		evDir = filepath.Join(dir, "out", "selftest-evidence")
@@ -570,4 +575,26 @@ func writeReplay(dir, id, name string, payload map[string]any) string {
 // tryReplay attempts to turn a solver model into a failing run of the real code (see replay.go).
 func tryReplay(dir string, P *Program, ob *Oblig, payload map[string]any) bool {
 	return replayModel(dir, P, ob, payload)
+}
+
+// runSpecValidation executes /verif/specs/validate (stdlib-only tests of the assumed models of
+// encoding/json, bytes.Buffer, strings.Split, base64, float truncation, time.Round) with the
+// pre-installed go1.26.8. Bounded, labelled as such; its outcome does not change the verdict.
+func runSpecValidation(dir string) map[string]any {
+	cmd := exec.Command("go1.26.8", "test", "-count=1", "-v", ".")
+	cmd.Dir = filepath.Join(dir, "specs", "validate")
+	cmd.Env = append(os.Environ(), "GOTOOLCHAIN=local", "GOFLAGS=-mod=mod", "GOPROXY=off", "GOWORK=off", "VERIF_TIER=thorough")
+	out, err := cmd.CombinedOutput()
+	res := map[string]any{"label": "bounded", "what": "assumed models of encoding/json map merge and buffer rest, generic decoding types, strings.Split, base64 inverse, float truncation, time.Round executed against the real standard library on generated inputs",
+		"passed": err == nil}
+	for _, l := range strings.Split(string(out), "\n") {
+		if strings.HasPrefix(l, "SPECVALIDATE") {
+			res["summary"] = l
+		}
+	}
+	if err != nil {
+		res["output"] = trimModel(string(out))
+		fmt.Fprintln(os.Stderr, "assumed-spec validation FAILED (a model of the trusted base misdescribes the library):\n"+string(out))
+	}
+	return res
 }
